@@ -30,6 +30,7 @@ import (
 	"time"
 
 	"verifharness/enc"
+	"verifharness/hook"
 	"verifharness/mach"
 
 	"github.com/Comcast/sheens/core"
@@ -603,7 +604,7 @@ var theHarness = &harness{gates: map[*sio.TimerEntry]*gate{}, byId: map[string]*
 // run replays one behaviour; acts are ["s", i] (1-based input), ["f", id], ["d", 0], ["r", 0]
 func run(id int, acts []T, pick func(h *harness) T) O {
 	h := theHarness
-	sio.VerifHook = h.hook
+	hook.Set(h.hook)
 	h.shadow = map[string]*stored{}
 	h.boot(false)
 	ins := inputs()
